@@ -128,7 +128,11 @@ func ParsePutCommand(cmd redcon.Command) (*Put, error) {
 
 	args := cmd.Args[4:]
 	for len(args) > 0 {
-		switch arg := strings.ToUpper(util.BytesToString(args[0])); arg {
+		arg := strings.ToUpper(util.BytesToString(args[0]))
+		if arg != "NX" && arg != "XX" && len(args) < 2 {
+			return nil, fmt.Errorf("%w: %s needs an argument", ErrInvalidArgument, arg)
+		}
+		switch arg {
 		case "NX":
 			p.SetNX()
 			args = args[1:]
@@ -293,7 +297,7 @@ func (g *GetEntry) Command(ctx context.Context) *redis.StringCmd {
 }
 
 func ParseGetEntryCommand(cmd redcon.Command) (*GetEntry, error) {
-	if len(cmd.Args) < 2 {
+	if len(cmd.Args) < 3 {
 		return nil, errWrongNumber(cmd.Args)
 	}
 
@@ -606,7 +610,11 @@ func ParseScanCommand(cmd redcon.Command) (*Scan, error) {
 
 	args := cmd.Args[4:]
 	for len(args) > 0 {
-		switch arg := strings.ToUpper(util.BytesToString(args[0])); arg {
+		arg := strings.ToUpper(util.BytesToString(args[0]))
+		if arg != "RC" && len(args) < 2 {
+			return nil, fmt.Errorf("%w: %s needs an argument", ErrInvalidArgument, arg)
+		}
+		switch arg {
 		case "MATCH":
 			s.SetMatch(util.BytesToString(args[1]))
 			args = args[2:]
@@ -622,6 +630,8 @@ func ParseScanCommand(cmd redcon.Command) (*Scan, error) {
 		case "RC":
 			s.SetReplica()
 			args = args[1:]
+		default:
+			return nil, fmt.Errorf("%w: %s", ErrInvalidArgument, arg)
 		}
 	}
 
@@ -865,7 +875,7 @@ func ParseLockCommand(cmd redcon.Command) (*Lock, error) {
 	// EX or PX are optional.
 	if len(cmd.Args) > 4 {
 		if len(cmd.Args) == 5 {
-			return nil, fmt.Errorf("%w: %s needs a numerical argument", ErrInvalidArgument, util.BytesToString(cmd.Args[5]))
+			return nil, fmt.Errorf("%w: %s needs a numerical argument", ErrInvalidArgument, util.BytesToString(cmd.Args[4]))
 		}
 
 		switch arg := strings.ToUpper(util.BytesToString(cmd.Args[4])); arg {
